@@ -88,14 +88,26 @@ def B(d, y=False): return dict({'t': 'boolean', 'd': d}, **({'y': True} if y els
 def C(c, d, y=False): return dict({'t': 'combo', 'c': list(c), 'd': d}, **({'y': True} if y else {}))
 def I(lo, hi, d): return {'t': 'integer', 'min': lo, 'max': hi, 'd': d}
 def A(c, d): return {'t': 'array', 'c': None if c is None else list(c), 'd': list(d)}
+def F(d): return {'t': 'feature', 'd': d}
 
 
 INIT = {
     'top': {'t_str': S('ts0'), 't_combo': C('abc', 'a'), 't_int': I(0, 10, 3), 'shared': C('abc', 'a'),
-            'flag': B(False), 't_arr': A(None, 'xy'), 'boom': B(False), 'boom_late': B(False)},
+            'flag': B(False), 't_arr': A(None, 'xy'), 't_bool': B(False), 't_arrc': A('xyz', 'x'), 't_feat': F('auto'),
+            'ystr': S('p0'), 'ylevel': I(0, 10, 3), 'yarr': A('xyz', 'x'), 'yfeat': F('auto'),
+            'boom': B(False), 'boom_late': B(False)},
     'sub': {'s_str': S('ss0'), 's_combo': C('xyz', 'x'), 'shared': C('abc', 'b', True), 'flag': B(True, True),
-            's_fix': S('sf0'), 's_fix2': S('sg0')},
+            's_fix': S('sf0'), 's_fix2': S('sg0'), 's_bool': B(True), 's_int': I(0, 10, 3), 's_arr0': A(None, 'p'),
+            's_arrc': A('pqr', 'p'), 's_feat': F('enabled'),
+            'ystr': dict(S('c0'), y=True), 'ylevel': dict(I(0, 10, 5), y=True), 'yarr': dict(A('xyz', 'y'), y=True),
+            'yfeat': dict(F('disabled'), y=True)},
 }
+# one plain option of every kind per project, one inheriting pair (same name in both projects) of every kind
+PLAIN = {'top': {'string': 't_str', 'boolean': 't_bool', 'combo': 't_combo', 'integer': 't_int', 'array': 't_arr',
+                 'arrayc': 't_arrc', 'feature': 't_feat'},
+         'sub': {'string': 's_str', 'boolean': 's_bool', 'combo': 's_combo', 'integer': 's_int', 'array': 's_arr0',
+                 'arrayc': 's_arrc', 'feature': 's_feat'}}
+YIELD = {'string': 'ystr', 'boolean': 'flag', 'combo': 'shared', 'integer': 'ylevel', 'arrayc': 'yarr', 'feature': 'yfeat'}
 # the reference sees the default_options of the build files as defaults of a fresh configuration
 REF.BUILD_FILE_DEFAULTS[:] = [x.split('=') for x in RUN.PDO_TOP] + [['sub:' + x.split('=')[0], x.split('=')[1]] for x in RUN.PDO_SUB + RUN.SPCALL]
 
@@ -247,6 +259,210 @@ ALPHABET: T.List[dict] = [
 ]
 
 
+# ---------------------------------------------------------------- dependency-directed templates
+#
+# For each clause of the property a template chains the clause's preconditions (override -> edit the parent's
+# choices -> change the parent -> drop the override -> read; set -> remove -> re-add -> read; pin -> change the
+# default -> wipe; fail -> retry; …) and is instantiated over every option kind and both projects.  Each instance is
+# one history, tagged with its (clause, kind, project) cell; evidence reports the cells exercised.
+
+def kind_of(sp: dict) -> str:
+    return 'arrayc' if sp['t'] == 'array' and sp.get('c') is not None else sp['t']
+
+
+def key_of(proj: str, name: str) -> str:
+    return name if proj == 'top' else 'sub:' + name
+
+
+def cl(v: T.Any) -> str:
+    """a stored default as a command-line string"""
+    if isinstance(v, list):
+        return ','.join(v)
+    return REF.canon(v)
+
+
+def valid_values(sp: dict) -> T.List[str]:
+    k = kind_of(sp)
+    if k == 'string':
+        return ['u1', 'u2']
+    if k == 'boolean':
+        return ['true', 'false']
+    if k == 'combo':
+        return list(sp['c'])
+    if k == 'integer':
+        lo, hi = sp['min'], sp['max']
+        return sorted({str(lo + 1), str(hi - 1), str((lo + hi) // 2 + 1)}, key=int)
+    if k == 'array':
+        return ['x', 'x,z', 'q']
+    if k == 'arrayc':
+        c = sp['c']
+        return [c[0], c[-1], c[0] + ',' + c[-1]]
+    return ['enabled', 'disabled', 'auto']
+
+
+def with_default(sp: dict, d: T.Any) -> dict:
+    return dict(sp, d=d)
+
+
+def domains(sp: dict) -> T.List[T.Tuple[str, dict]]:
+    """specs of the same type whose choices / range differ (the option object is replaced when re-read)"""
+    k = kind_of(sp)
+    if k == 'combo':
+        c = sp['c']
+        return [('grow', dict(sp, c=c + ['n'])),
+                ('shrink', dict(sp, c=c[:-1], d=sp['d'] if sp['d'] in c[:-1] else c[0])),
+                ('swap', dict(sp, c=c[:-1] + ['n'], d=sp['d'] if sp['d'] in c[:-1] else c[0]))]
+    if k == 'integer':
+        lo, hi, d = sp['min'], sp['max'], sp['d']
+        return [('grow', dict(sp, max=hi + 10)), ('shrink', dict(sp, max=hi - 4, d=min(d, hi - 4)))]
+    if k == 'arrayc':
+        c = sp['c']
+        keep = [x for x in sp['d'] if x in c[1:]] or [c[1]]
+        return [('grow', dict(sp, c=c + ['n'])), ('shrink', dict(sp, c=c[1:], d=keep)), ('lose', dict(sp, c=None))]
+    if k == 'array':
+        return [('gain', dict(sp, c=['x', 'y', 'z'], d=[x for x in sp['d'] if x in 'xyz'] or ['x']))]
+    return []
+
+
+def alt_default(sp: dict) -> dict:
+    k = kind_of(sp)
+    if k == 'string':
+        return dict(sp, d=sp['d'] + '1')
+    if k == 'boolean':
+        return dict(sp, d=not sp['d'])
+    if k == 'combo':
+        return dict(sp, d=[c for c in sp['c'] if c != sp['d']][-1])
+    if k == 'integer':
+        return dict(sp, d=sp['d'] + 1 if sp['d'] < sp['max'] else sp['d'] - 1)
+    if k == 'array':
+        return dict(sp, d=['q'] if sp['d'] != ['q'] else ['x'])
+    if k == 'arrayc':
+        return dict(sp, d=[sp['c'][-1]] if sp['d'] != [sp['c'][-1]] else [sp['c'][0]])
+    return dict(sp, d=[f for f in ('enabled', 'disabled', 'auto') if f != sp['d']][0])
+
+
+def invalid_value(sp: dict) -> T.Optional[str]:
+    return {'boolean': 'maybe', 'combo': 'zz', 'integer': 'x', 'arrayc': 'zz', 'feature': 'on'}.get(kind_of(sp))
+
+
+def ok_in(sp: dict, raw: str) -> bool:
+    return REF.validate(sp, raw) is not None
+
+
+RETYPE = {'string': B(True), 'boolean': S('bb'), 'combo': S('a'), 'integer': S('seven'), 'array': S('arr'),
+          'arrayc': C('xyz', 'x'), 'feature': B(False)}
+NEWSPEC = {'string': S('e0'), 'boolean': B(True), 'combo': C('pq', 'p'), 'integer': I(1, 9, 4), 'array': A(None, 'q'),
+           'arrayc': A('pqr', 'p'), 'feature': F('auto')}
+
+
+def templates() -> T.List[T.Tuple[str, str, str, T.List[dict]]]:
+    """(clause, kind, project, history) for every cell"""
+    out: T.List[T.Tuple[str, str, str, T.List[dict]]] = []
+
+    # -- inheriting pair: override / parent's or child's domain edit / parent change / drop the override / read
+    for kind, name in YIELD.items():
+        tsp, ssp = INIT['top'][name], INIT['sub'][name]
+        sk = 'sub:' + name
+        vs = valid_values(tsp)
+        own = cl(ssp['d'])
+        def pick(cands: T.List[str], *avoid: str) -> str:
+            # the first candidate that differs from as many of `avoid` (in order of importance) as possible
+            for n in range(len(avoid), -1, -1):
+                for v in cands:
+                    if all(v != a for a in avoid[:n]):
+                        return v
+            return cands[0]
+        v1 = pick(valid_values(ssp), cl(tsp['d']), own)
+        v2 = pick(vs, cl(tsp['d']), v1)
+        v3 = pick(vs, v2, v1)
+        # no edit: override, change the parent, drop the override, change the parent again
+        out.append(('yield:override-drop', kind, 'sub', [su(), cf((sk, v1)), cf((name, v2)), cf(U=[sk]), cf((name, v3))]))
+        out.append(('yield:override-drop', kind, 'sub', [su((sk, own)), rc((name, v2)), cf(U=[sk]), rc()]))
+        out.append(('yield:follow', kind, 'sub', [su(), cf((name, v2)), rc(), cf((name, v3)), WIPE]))
+        for label, nt in domains(tsp):
+            n2 = next((v for v in valid_values(nt) if not ok_in(tsp, v)), None) or pick(valid_values(nt), cl(nt['d']), v1)
+            if not ok_in(nt, v1) or not ok_in(ssp, v1):
+                continue
+            # the child is overridden WHILE the parent object is replaced; later the parent changes and the override is dropped
+            out.append(('yield:parent-replaced:overridden-child', kind, 'sub',
+                        [su(), cf((sk, v1)), ed('top', name, nt), rc(), cf((name, n2)), cf(U=[sk])]))
+            out.append(('yield:parent-replaced:overridden-child', kind, 'sub',
+                        [su((sk, v1)), ed('top', name, nt), cf((name, n2)), cf(U=[sk]), rc()]))
+            # the child yields while the parent object is replaced
+            out.append(('yield:parent-replaced:yielding-child', kind, 'sub',
+                        [su(), ed('top', name, nt), rc(), cf((name, n2)), rc()]))
+            # override set after the replacement
+            out.append(('yield:parent-replaced:override-later', kind, 'sub',
+                        [su(), ed('top', name, nt), rc(), cf((sk, v1)), cf((name, n2)), cf(U=[sk])]))
+        for label, ns in domains(ssp):
+            if not ok_in(ns, v1):
+                continue
+            out.append(('yield:child-replaced:yielding', kind, 'sub', [su(), ed('sub', name, ns), rc(), cf((name, v2)), rc()]))
+            out.append(('yield:child-replaced:overridden', kind, 'sub',
+                        [su(), cf((sk, v1)), ed('sub', name, ns), rc(), cf((name, v2)), cf(U=[sk])]))
+
+    # -- plain options of every kind in both projects
+    for proj in ('top', 'sub'):
+        for kind, name in PLAIN[proj].items():
+            sp = INIT[proj][name]
+            k = key_of(proj, name)
+            vs = valid_values(sp)
+            v = next(x for x in vs if x != cl(sp['d']))
+            w = next(x for x in vs if x != v)
+            dflt = cl(sp['d'])
+            alt = alt_default(sp)
+            # set -> persists over configure / reconfigure / wipe
+            out.append(('persist', kind, proj, [su((k, v)), cf((k, w)), rc(), WIPE, rc((k, v))]))
+            # (not set) remove -> re-read -> re-add with another default -> read; set -> remove (the recorded finding)
+            out.append(('remove-readd', kind, proj, [su(), ed(proj, name, None), rc(), ed(proj, name, alt), rc(), cf((k, v))]))
+            out.append(('remove-recorded', kind, proj, [su((k, v)), ed(proj, name, None), rc()]))
+            # pin to the current value -> change the default -> wipe
+            out.append(('pin-default-wipe', kind, proj, [su(), cf((k, dflt)), ed(proj, name, alt), rc(), WIPE]))
+            out.append(('pin-default-wipe', kind, proj, [su((k, dflt)), ed(proj, name, alt), WIPE, rc()]))
+            out.append(('default-change-unpinned', kind, proj, [su(), ed(proj, name, alt), rc(), WIPE]))
+            # fail -> retry
+            out.append(('fail-retry:early', kind, proj, [su(), rc((k, v), ('boom', 'true')), rc((k, v)), WIPE]))
+            out.append(('fail-retry:late', kind, proj, [su(), rc((k, v), ('boom_late', 'true')), rc(), rc((k, v)), WIPE]))
+            out.append(('fail-retry:first-setup', kind, proj, [su((k, v), ('boom_late', 'true')), su((k, w)), rc()]))
+            bad = invalid_value(sp)
+            if bad is not None:
+                out.append(('fail-retry:invalid', kind, proj, [su(), cf((k, bad)), rc((k, bad)), cf((k, v)), rc()]))
+            # changed choices / range: keep a still-valid value, else the new default
+            for label, nsp in domains(sp):
+                keep = next((x for x in vs if ok_in(nsp, x) and x != cl(nsp['d'])), None)
+                drop = next((x for x in vs if not ok_in(nsp, x)), None)
+                if keep is not None:
+                    out.append(('choices:keep', kind, proj, [su((k, keep)), ed(proj, name, nsp), rc(), WIPE]))
+                    out.append(('choices:keep', kind, proj, [su(), cf((k, keep)), ed(proj, name, nsp), cf((key_of(proj, PLAIN[proj]['string']), 'u1')), rc()]))
+                if drop is not None:
+                    out.append(('choices:reset', kind, proj, [su(), cf((k, drop)), ed(proj, name, nsp), rc(), cf((k, cl(nsp['d']))), WIPE]))
+            # changed type
+            nt = RETYPE[kind]
+            out.append(('type-change', kind, proj, [su(), ed(proj, name, nt), rc(), cf((k, valid_values(nt)[0])), rc()]))
+            # a new option of this kind
+            nn = 'extra' if proj == 'top' else 's_extra'
+            ns = NEWSPEC[kind]
+            nv = next(x for x in valid_values(ns) if x != cl(ns['d']))
+            out.append(('new-option', kind, proj, [su(), ed(proj, nn, ns), rc(), cf((key_of(proj, nn), nv)), WIPE]))
+            out.append(('new-option', kind, proj, [su(), ed(proj, nn, ns), cf((key_of(proj, nn), nv)), rc()]))
+
+    # -- per-subproject override of a builtin option
+    out.append(('builtin-override', 'builtin', 'sub', [su(), cf(('sub:warning_level', '3')), cf(('warning_level', '0')), cf(U=['sub:warning_level']), rc()]))
+    out.append(('builtin-override', 'builtin', 'sub', [su(('sub:warning_level', '3')), rc(('warning_level', '3')), cf(('warning_level', '0')), WIPE]))
+    return out
+
+
+def pad(rng: random.Random, h: T.List[dict]) -> T.List[dict]:
+    """the template with one or two random commands inserted after the first command"""
+    h = list(h)
+    for _ in range(rng.choice([1, 2])):
+        c = rand_cmd(rng, False)
+        if c['op'] == 'wipe' or (c['op'] == 'setup'):
+            continue
+        h.insert(rng.randint(1, len(h)), c)
+    return h
+
+
 # ---------------------------------------------------------------- model side
 
 def e_key(k: str) -> str:
@@ -275,6 +491,8 @@ def e_spec(sp: dict) -> str:
         k = 'C' + ''.join('~' + enc(c) for c in sp['c'])
     elif t == 'array':
         k = 'An' if sp.get('c') is None else 'A' + ''.join('~' + enc(c) for c in sp['c'])
+    elif t == 'feature':
+        k = 'F'
     else:
         k = 'I%s_%s' % ('n' if sp.get('min') is None else sp['min'], 'n' if sp.get('max') is None else sp['max'])
     return f"{k}/{e_val(sp['d'])}/{1 if sp.get('y') else 0}/0"
@@ -341,7 +559,8 @@ def obs_string(cmd: dict, ob: dict) -> str:
         core = '-'
     else:
         core = 'eff:' + jn(f'{k}={v}' for k, v in c['eff'].items()) + ';own:' + jn(f'{k}={v}' for k, v in c['own'].items() if not k.endswith(':' + RUN.BUILTIN)) + \
-            ';aug:' + jn(f'{k}={v}' for k, v in c['aug'].items()) + ';yield:' + jn(k for k, v in c['yield'].items() if v)
+            ';aug:' + jn(f'{k}={v}' for k, v in c['aug'].items()) + ';yield:' + jn(k for k, v in c['yield'].items() if v) + \
+            ';stale:' + jn(c['stale'])
     cl = '-' if ob['cmdline'] is None else ','.join(f'{k}={v}' for k, v in ob['cmdline'])
     it = '-' if ob['intro'] is None else jn(f'{intro_key(k)}={v}' for k, v in ob['intro'].items())
     return f'{out}#{core}#{cl}#{it}'
@@ -448,8 +667,12 @@ def classify(st: REF.State, files: dict, cmd: dict, ob: dict, prev: T.Optional[d
     return (f'{kind}:{op}:{cat}', f'after `{op}`: {diff}')
 
 
-def oracle(hist: T.List[dict], obs: T.List[dict]) -> T.Optional[dict]:
-    """first deviation of the real observations from the reference, or None"""
+def oracle(hist: T.List[dict], obs: T.List[dict], reach: T.Optional[T.Set[str]] = None) -> T.Optional[dict]:
+    """first deviation of the real observations from the reference, or None; `reach` collects the dependency states
+    the history got to (a parent / child object replaced while the child was overridden / yielding, an override
+    dropped after a replacement, a stale parent pointer in the real store)"""
+    if reach is None:
+        reach = set()
     st = REF.State()
     files = {p: dict(d) for p, d in INIT.items()}
     prev: T.Optional[dict] = None
@@ -477,7 +700,18 @@ def oracle(hist: T.List[dict], obs: T.List[dict]) -> T.Optional[dict]:
             key, what = classify(st, files, cmd, ob, prev, cands)
             return {'step': i, 'key': key, 'what': what}
         if chosen is not None:
+            for k in chosen.parent_replaced - st.parent_replaced:
+                reach.add('parent-replaced:' + ('overridden-child' if k in chosen.override else 'yielding-child'))
+            for k in chosen.child_replaced - st.child_replaced:
+                reach.add('child-replaced:' + ('overridden' if k in chosen.override else 'yielding'))
+            for k in cmd.get('U', []):
+                if k in st.override and k in st.parent_replaced:
+                    reach.add('override-dropped-after-parent-replaced')
+                if k in st.override and k in st.child_replaced:
+                    reach.add('override-dropped-after-child-replaced')
             st = chosen
+        if ob['core'] and ob['core'].get('stale'):
+            reach.add('stale-parent-pointer')
         if 'introspect' in ob and ob['introspect'] != ob['intro']:
             return {'step': i, 'key': 'introspect-differs-from-intro-file', 'what': 'meson introspect --buildoptions differs from intro-buildoptions.json'}
         prev = ob
@@ -491,7 +725,7 @@ def _work(job: T.Tuple[int, T.List[dict], T.List[int]]) -> T.Tuple[int, T.List[d
     return idx, RUN.run_history(INIT, hist, isteps)
 
 
-def run_batch(ctx: Ctx, hists: T.List[T.List[dict]], label: str) -> None:
+def run_batch(ctx: Ctx, hists: T.List[T.List[dict]], label: str, cells: T.Optional[T.List[str]] = None) -> None:
     jobs = []
     for i, h in enumerate(hists):
         steps = [j for j, c in enumerate(h) if c['op'] != 'edit']
@@ -542,7 +776,12 @@ def run_batch(ctx: Ctx, hists: T.List[T.List[dict]], label: str) -> None:
                                   'impl': impl[j] if j < len(impl) else None,
                                   'err': obs[j].get('err') if j < len(obs) else None})
         # property oracle on the implementation
-        dev = oracle(h, obs)
+        reach: T.Set[str] = set()
+        dev = oracle(h, obs, reach)
+        for r in reach:
+            ctx.tag('reach:' + r)
+        if cells is not None:
+            ctx.tag('cell:' + cells[i])
         if dev is not None:
             ctx.tag('oracle:' + dev['key'])
             ctx.violation(dev['key'], dev['what'], {'history': h[:dev['step'] + 1], 'step': dev['step'],
@@ -575,7 +814,21 @@ def run(ctx: Ctx) -> None:
         else:
             ctx.exhaustive = True
         run_batch(ctx, ex, 'exhaustive<=3')
-    n = ctx.scale(100, 1500)
+    # dependency-directed templates: quick = every inheriting-pair template + a seeded sample of the others;
+    # deep = all of them, plain and padded with random commands
+    tpl = templates()
+    if not ctx.deep:
+        must = [t for t in tpl if t[0].startswith('yield:')]
+        rest = [t for t in tpl if not t[0].startswith('yield:')]
+        tpl = must + ctx.rng.sample(rest, 30)
+    elif cap:
+        must = [t for t in tpl if t[0].startswith('yield:')]
+        tpl = must + ctx.rng.sample([t for t in tpl if not t[0].startswith('yield:')], min(cap, 60))
+    run_batch(ctx, [t[3] for t in tpl], 'templates', [f'{t[0]}:{t[1]}:{t[2]}' for t in tpl])
+    if ctx.deep and not cap:
+        run_batch(ctx, [pad(ctx.rng, t[3]) for t in tpl], 'templates-padded', [f'{t[0]}:{t[1]}:{t[2]}' for t in tpl])
+    ctx.extra['template_cells'] = sorted({f'{t[0]}:{t[1]}:{t[2]}' for t in tpl})
+    n = ctx.scale(50, 1500)
     if cap and ctx.deep:
         n = min(n, cap)
     run_batch(ctx, [rand_history(ctx.rng) for _ in range(n)], 'random')
